@@ -212,7 +212,7 @@ def run_check(prop, tier):
         for k, v in (r.get("scenarios") or {}).items():
             scen[k] = scen.get(k, 0) + v
     cov["scenarios_fired"] = scen
-    need = {"C06": ["swap", "delete-insert", "same-value", "takeover", "second-index", "mutate-onto-index-value"], "C04": ["weak-prune-two-passes"], "C15": ["named-map-key-delete", "named-forward-condition"], "C02": ["drop-reference-then-fail"],
+    need = {"C06": ["swap", "delete-insert", "same-value", "takeover", "second-index", "mutate-onto-index-value"], "C04": ["weak-prune-two-passes"], "C15": ["named-map-key-delete", "named-forward-condition"], "C02": ["drop-reference-then-fail", "drop-reference-then-fail-at-commit"],
             "C03": ["wait-duplicate-row", "wait-all-rows"]}.get(prop, [])
     dead = [k for k in need if scen.get(k, 0) == 0]
     if dead:
